@@ -227,12 +227,12 @@ using namespace C;
 SyntaxToken::SyntaxToken(SyntaxTree* tree)
     : tree_(tree)
     , syntaxK_(SyntaxKind::EndOfFile)
+    , BF_all_(0)
     , byteSize_(0)
     , charSize_(0)
     , byteOffset_(0)
     , charOffset_(0)
     , matchingBracket_(0)
-    , BF_all_(0)
     , lineno_(0)
     , column_(0)
     , lexeme_(nullptr)
